@@ -416,3 +416,12 @@ def columns_deviance(ctx, fd):
                   key='C16.dispatch-deviance|dump|columns-ignored-for-pixels')
     else:
         ctx.unrec(R, 'dump.columns', ctx.where(fd), found=consulted, reason='table dispatch not recognised')
+
+
+_run_core = run
+
+
+def run(ctx):
+    _run_core(ctx)
+    from . import refs_misc
+    refs_misc.run_for(ctx, 'C16')
